@@ -117,6 +117,25 @@ def lru_assembly(ctx, rr):
     rr.ob(ctx.where(npi), 'node_parents_iter yields one node per existing parent link, none for a top-level node (%d rows)' % len(rows), ok=not bad)
     for r in bad:
         rr.fail(ctx.finding('R-LRU-ASSEMBLY', npi, npi.node, 'node_parents_iter does not yield exactly the chain of parents', detail={'row': r.show()[:300]}, stmt='parents chain'))
+    # upward webentity resolution starts at the node itself
+    ww = P.method('LRUTrie', 'windup_lru_for_webentity')
+    rows = tables(ctx, ww, iters=1, keep=lambda nm, c: nm in ('has_webentity', 'webentity', 'node_parents_iter', 'warn'))
+    Np = ww.call_params[0]
+    bad = []
+    for r in rows:
+        own = r.val.get('%s.has_webentity()' % Np)
+        ret = [e for e in r.events if e.kind == 'return']
+        if own is None:
+            bad.append((r, 'the node itself is not asked for its webentity before its parents are'))
+        elif own and (not ret or base(ret[0].text) != '%s.webentity()' % Np or r.calls('node_parents_iter')):
+            bad.append((r, 'a node that carries a webentity does not resolve to it directly'))
+        if own is False:
+            pw = [v for k, v in r.val.items() if k.endswith('.has_webentity()') and not k.startswith(Np + '.')]
+            if pw and pw[-1] and (not ret or not base(ret[0].text).endswith('.webentity()')):
+                bad.append((r, 'the first parent with a webentity is not the answer'))
+    rr.ob(ctx.where(ww), 'windup_lru_for_webentity: the node itself first, then the nearest parent with a webentity (%d rows)' % len(rows), ok=not bad)
+    for r, msg in bad[:2]:
+        rr.fail(ctx.finding('R-LRU-ASSEMBLY', ww, ww.node, 'windup_lru_for_webentity: ' + msg, detail={'row': r.show()[:300]}, stmt='windup webentity'))
     # helpers: lru_iter cuts after each separator; lru_dirname drops the last stem
     h = P.funcs.get(('traph.helpers', 'lru_iter'))
     d = P.funcs.get(('traph.helpers', 'lru_dirname'))
@@ -155,6 +174,13 @@ def link_walk(ctx, rr):
         rr.ob(ctx.where(u, wl[0]), '%s moves to the previous stub before accounting for it' % name, ok=first_is_move)
         if not first_is_move:
             rr.fail(ctx.finding('R-LINK-WALK', u, wl[0], '%s accounts for a stub before moving to it: the head is counted twice and the oldest link is lost' % name))
+    for name in ('link_nodes_iter', 'weighted_link_nodes_iter', 'deduped_link_nodes_iter'):
+        u = P.method('LinkStore', name)
+        for w_ in P.own(u, ast.While):
+            early = [x for x in ast.walk(w_) if isinstance(x, (ast.Break, ast.Return))]
+            rr.ob(ctx.where(u, w_), '%s never leaves its walk before the end of the list' % name, ok=not early)
+            if early:
+                rr.fail(ctx.finding('R-LINK-WALK', u, early[0], '%s stops its walk early (`%s`): older links behind that stub are lost' % (name, type(early[0]).__name__.lower())))
     w = P.method('LinkStore', 'weighted_link_nodes_iter')
     inits = [a for a in P.own(w, ast.Assign) if isinstance(a.targets[0], ast.Subscript) and ast.unparse(a.targets[0].slice).endswith('.target()')]
     incs = [a for a in P.own(w, ast.AugAssign) if isinstance(a.target, ast.Subscript) and ast.unparse(a.target.slice).endswith('.target()')]
@@ -302,6 +328,10 @@ def paginate(ctx, rr):
             if isp is False and (ret or {A, B} & sets or [e for e in r.events if e.kind == 'aug']):
                 bad.append((r, 'a non-page node is counted or recorded'))
             if ret:
+                augs = [e for e in r.events if e.kind == 'aug']
+                if len(augs) > 1:
+                    bad.append((r, 'the overflow %s is counted (%s) before the answer is returned: the counts of the answer do not match its contents' % (
+                        unit_word, ', '.join(e.name for e in augs[1:]))))
                 if {A, B} & sets:
                     bad.append((r, 'the token is advanced to the overflow %s before the answer is returned: that %s is skipped on resume' % (unit_word, unit_word)))
                 txt = ret[0].text
@@ -410,6 +440,14 @@ def storage_sem(ctx, rr):
     rr.ob(ctx.where(fw), 'FileStorage.write: None -> seek to the end; block -> seek(block); then write; return tell() - block_size (%d rows)' % len(rows), ok=not bad)
     for row, msg in bad:
         rr.fail(ctx.finding('R-STORAGE-SEM', fw, fw.node, 'FileStorage.write: ' + msg, detail={'row': row.show()[:300]}, stmt='file write table'))
+    mp = P.classes['FileStorage'].get('map')
+    if mp is not None:
+        rets = [x.value for x in P.own(mp, ast.Return) if x.value is not None]
+        ok = len(rets) == 1 and isinstance(rets[0], ast.Call) and any(t.cls == 'MemMapStorage' for t in P.targets(rets[0]))
+        rr.ob(ctx.where(mp), 'FileStorage.map returns a new mapping of the current file on every call', ok=ok)
+        if not ok:
+            rr.fail(ctx.finding('R-STORAGE-SEM', mp, mp.node, 'FileStorage.map hands out a remembered mapping: a mapping has the length the file had when it was created, so blocks '
+                                'appended since read as missing', stmt='map fresh'))
     # node.write hands its own address back to the storage and keeps the returned address
     for cls in ('LRUTrieNode', 'LinkStoreNode'):
         nw = P.method(cls, 'write')
@@ -469,3 +507,41 @@ def hierarchy(ctx, rr):
     c = [c for c in P.own(ch, ast.Call) if any(t.name == 'dfs_iter' for t in P.targets(c))][0]
     ok = len(c.args) >= 2 and isinstance(c.args[1], ast.Name) and any(names_in_target(a.targets[0]) == [c.args[1].id] for a in ast.walk(ch.node) if isinstance(a, ast.Assign))
     rr.ob(ctx.where(ch, c), 'the child walk is given the prefix LRU it starts from', ok=ok)
+
+
+@rule('R-RULES-TO-APPLY')
+def rules_to_apply(ctx, rr):
+    """every rule anchor met on the walk is proposed, deepest first, as the stem-prefix of the walked LRU of that length"""
+    P = ctx.P
+    u = P.method('LRUTrieWalkHistory', 'rules_to_apply')
+    loops = [f for f in P.own(u, ast.For)]
+    if len(loops) != 1:
+        raise AnalysisError('R-RULES-TO-APPLY: rules_to_apply no longer has one loop')
+    lp = loops[0]
+    ok = isinstance(lp.iter, ast.Call) and isinstance(lp.iter.func, ast.Name) and lp.iter.func.id == 'reversed' and ast.unparse(lp.iter.args[0]) == 'self.webentity_creation_rules'
+    rr.ob(ctx.where(u, lp), 'anchors are proposed deepest first (reversed recording order)', ok=ok)
+    if not ok:
+        rr.fail(ctx.finding('R-RULES-TO-APPLY', u, lp, 'rule anchors are no longer proposed in reversed (deepest first) order'))
+    POS = lp.target.id if isinstance(lp.target, ast.Name) else None
+    rows = tables(ctx, u, stmts=lp.body, iters=1)
+    bad = []
+    for r in rows:
+        nonneg = r.lin_known({POS: 1}, '>=', 0)
+        ys = [e for e in r.events if e.kind == 'yield']
+        if nonneg is not False and not ys:
+            bad.append((r, 'an anchor at a valid position is not proposed (an extra condition filters it)'))
+        for y in ys:
+            if base(y.args[0]).replace(' ', '') not in ('self.lru[0:%s]' % POS, 'self.lru[:%s]' % POS):
+                bad.append((r, 'the proposed anchor is `%s`, not the stem-prefix self.lru[0:position]' % y.args[0]))
+    rr.ob(ctx.where(u, lp), 'every recorded anchor position yields self.lru[0:position] (%d rows)' % len(rows), ok=not bad)
+    for r, msg in bad[:2]:
+        rr.fail(ctx.finding('R-RULES-TO-APPLY', u, lp, 'rules_to_apply: ' + msg, detail={'row': r.show()[:300]}))
+    # the rule functions apply the pattern with search() and return the whole match
+    for nm in ('__apply_webentity_creation_rule', '__apply_webentity_default_creation_rule'):
+        f = P.method('Traph', nm)
+        rets = [ast.unparse(x.value) for x in P.own(f, ast.Return) if x.value is not None and not (isinstance(x.value, ast.Constant))]
+        calls = [c.func.attr for c in P.own(f, ast.Call) if isinstance(c.func, ast.Attribute)]
+        ok = 'search' in calls and all(x.endswith('.group()') for x in rets) and bool(rets)
+        rr.ob(ctx.where(f), '%s returns the text matched by the rule pattern' % nm, ok=ok)
+        if not ok:
+            rr.fail(ctx.finding('R-RULES-TO-APPLY', f, f.node, '%s no longer returns regexp.search(lru).group()' % nm, stmt=nm))
